@@ -20,9 +20,9 @@ def plan(tier, seed):
   q = tier == 'quick'
   top = 130 if q else 520
   specs = [{'shard': 'ints-%d' % i, 'part': i, 'parts': 8, 'top': top,
-            'sets': 4 if q else 6} for i in range(8)]
+            'sets': 12 if q else 24} for i in range(8)]
   specs += [{'shard': 'keys-%d' % i, 'part': i, 'parts': 6,
-             'top': 60 if q else 200, 'n': 30 if q else 120} for i in range(6)]
+             'top': 60 if q else 200, 'n': 60 if q else 240} for i in range(6)]
   return specs
 
 
@@ -108,6 +108,9 @@ def run_ints(ctx, spec):
         if not ctx.want('%d/%d' % (size, k)):
           continue
         vals = _value_sets(rng, size, (k + size) % 6)
+        if k >= 6 and vals and rng.chance(1, 2):
+          # duplicates at first / last / odd positions
+          vals[rng.choice([0, -1, len(vals) // 2])] = rng.choice(vals)
         if rng.chance(1, 2):
           rng.shuffle(vals)
         extra = rng.choice([None, None, 1, vals[0] if vals else 7,
